@@ -72,9 +72,10 @@ def handlers : List (String × (List Sexp → String)) := [
   ("c08.units", fun a => run do
       let [x] := a | none
       let s ← parseStmt x
-      pure (toString (Sexp.list ((Spec.unitsS s).map fun u =>
+      let one (tag : String) (u : Spec.ExecUnit) : Sexp :=
         .list [Sexp.ofNat u.id, .atom (match u.key with | .scope => "SCOPE" | .iterate => "ITERATE_SCOPE"),
-               strs u.reads, strs u.writes])))),
+               strs u.reads, strs u.writes, .atom tag]
+      pure (toString (Sexp.list (((Spec.stmtUnits s).map (one "stmt")) ++ ((Spec.lambdaUnits s).map (one "lambda")))))),
   ("c08.hyp", fun a => run do
       let [x] := a | none
       let s ← parseStmt x
